@@ -404,4 +404,11 @@ def r5_calibration_surfacing(ctx):
     ctx.check(ok, ps.qual, "forwards to the problem's fitness without handling" if ok else "fitness wrapper handles exceptions", where=ps, node=ps.node)
 
 
-RULES = [r1_no_swallowing_handler, r2_no_masking_constructs, r3_annotation_present, r4_no_result_on_failure, r5_calibration_surfacing]
+def r6_group_is_named_correctly(ctx):
+    """The note names the model GROUP by ModelGroup._name: every group of the pipeline is built with the name of its own slot (DetectionPipeline.__init__ wiring, shared with C01.R2), otherwise a failure is attributed to another group."""
+    from props.C01 import r2_accessor_wiring
+
+    r2_accessor_wiring(ctx)
+
+
+RULES = [r6_group_is_named_correctly, r1_no_swallowing_handler, r2_no_masking_constructs, r3_annotation_present, r4_no_result_on_failure, r5_calibration_surfacing]
